@@ -36,6 +36,7 @@ type Result struct {
 	RawHash       string                 `json:"raw_hash"`
 	CanonHash     string                 `json:"canon_hash"`
 	ServeReturned bool                   `json:"serve_returned"`
+	Completed     bool                   `json:"completed"`
 	DrainAdvances int                    `json:"drain_advances"`
 	Harness       string                 `json:"harness,omitempty"` // harness-level trouble (never a violation)
 	Gauges        []map[string]float64   `json:"-"`                 // [0]=baseline, then at quiescent points, last=final
@@ -136,6 +137,11 @@ func Run(t *testing.T, p *plan.Plan) (res *Result) {
 			s := fmt.Sprint(r)
 			if !strings.Contains(s, "deadlock") && !strings.Contains(s, "blocked goroutines") {
 				panic(r)
+			}
+			if !res.Completed {
+				// the bubble deadlocked before the run finished: something in the code under
+				// test (or the harness) blocks forever. Never reported as a pass.
+				res.Harness = "deadlock inside the bubble before the run completed: " + s
 			}
 		}
 	}()
@@ -239,6 +245,12 @@ func run(p *plan.Plan, res *Result) {
 func finish(s *sched) {
 	w, res := s.w, s.res
 	synctest.Wait()
+	res.Completed = true
+	if s.ref != nil {
+		if mut := s.ref.MutatedPublished(); len(mut) > 0 {
+			w.Rec(world.Ev{Actor: "loader", Kind: "published-mutated", S: fmt.Sprint(mut)})
+		}
+	}
 	s.recGauges("final")
 	for _, c := range s.clis {
 		if c.real != nil {
